@@ -21,5 +21,7 @@ for id in "$@"; do
   [ "$v" = CAUGHT ] || sig=""
   line="$(basename "$D") $id $v $((t1-t0))s ${TIER:-quick} $sig"
   echo "$line"; echo "$(date -u +%FT%TZ) $line" >> "$D/runs.log"
+  # keep the witnesses of the last evaluation outside the tree (diagnosis of unexpected signatures)
+  mkdir -p "/var/tmp/verif-eval-replays/$(basename "$D")" && cp replays/$id-${TIER:-quick}-*.json "/var/tmp/verif-eval-replays/$(basename "$D")/" 2>/dev/null
   rm -f replays/$id-${TIER:-quick}-*.json
 done
